@@ -69,12 +69,15 @@ impl<'a> ErrorObject<'a> {
 
 	/// Create a new `ErrorObjectOwned` with optional data.
 	pub fn owned<S: Serialize>(code: i32, message: impl Into<String>, data: Option<S>) -> ErrorObject<'static> {
-		let data = data.and_then(|d| serde_json::value::to_raw_value(&d).ok());
+		// `null` data cannot be told apart from absent data once it is on the wire (it is read back as `None`).
+		let data = data.and_then(|d| serde_json::value::to_raw_value(&d).ok()).filter(|d| d.get() != "null");
 		ErrorObject { code: code.into(), message: message.into().into(), data: data.map(StdCow::Owned) }
 	}
 
 	/// Create a new [`ErrorObject`] with optional data.
 	pub fn borrowed(code: i32, message: &'a str, data: Option<&'a RawValue>) -> ErrorObject<'a> {
+		// `null` data cannot be told apart from absent data once it is on the wire (it is read back as `None`).
+		let data = data.filter(|d| d.get() != "null");
 		ErrorObject { code: code.into(), message: StdCow::Borrowed(message), data: data.map(StdCow::Borrowed) }
 	}
 
